@@ -11,7 +11,10 @@ let rec pos_of_int i = if i = 1 then XH else if i land 1 = 1 then XI (pos_of_int
 let n_of_int i = if i = 0 then N0 else Npos (pos_of_int i)
 let rec int_of_pos = function XH -> 1 | XO p -> 2 * int_of_pos p | XI p -> 2 * int_of_pos p + 1
 let int_of_n = function N0 -> 0 | Npos p -> int_of_pos p
-let arg i = if i = -1 then npos else n_of_int i            (* position / count argument *)
+(* position / count argument: -1 = npos, -2 = npos - 1 (binary 1...10), otherwise the number itself *)
+let npos_minus_1 = let rec ones k = if k = 1 then XH else XI (ones (k - 1)) in Npos (XO (ones 63))
+let arg i = if i = -1 then npos else if i = -2 then npos_minus_1 else n_of_int i
+let huge3 = [1 lsl 32; (1 lsl 32) + 1; -2]
 let enc_size n = if n = npos then -1 else int_of_n n
 let enc_bool b = if b then 1 else 0
 let enc_sign = function Z0 -> 0 | Zpos _ -> 1 | Zneg _ -> -1
@@ -79,6 +82,18 @@ let block_hay ?(kind = 'H') ?lh ?(ls = "-") h verbose =
       call b [enc_size (find_last_of h cv a)];
       call b [enc_size (find_first_not_of h cv a)];
       call b [enc_size (find_last_not_of h cv a)]) p) alpha5;
+  let do_copy k pos =
+    call b (match copy h buf (arg k) (arg pos) with
+            | Ok (r, out) -> enc_size r :: enc_str out
+            | _ -> -2 :: enc_str buf) in
+  List.iter (fun g ->
+    call b (match at_ h (arg g) with Ok c -> [int_of_n c] | _ -> [-2]);
+    call b (match substr h (arg g) (arg 1) with Ok v -> enc_str v | _ -> [-2]);
+    call b (match substr h (arg 0) (arg g) with Ok v -> enc_str v | _ -> [-2]);
+    do_copy g 0;
+    do_copy 1 g;
+    call b [enc_size (find h (of_char (n_of_int 0x61)) (arg g))];
+    call b [enc_size (rfind h (of_char (n_of_int 0x61)) (arg g))]) huge3;
   finish b
 
 (* ---------------------------------------------------------------- block P *)
@@ -115,6 +130,15 @@ let block_pair ?lh ?ls h s verbose =
   List.iter (fun pos1 -> List.iter (fun n1 ->
     call b (match compare3 h (arg pos1) (arg n1) cs with Ok z -> [enc_sign z] | _ -> [-2]);
     call b (match compare3 h (arg pos1) (arg n1) pn with Ok z -> [enc_sign z] | _ -> [-2])) f) f;
+  List.iter (fun g ->
+    let a = arg g in
+    call b [enc_size (find h s a)];
+    call b [enc_size (rfind h s a)];
+    call b [enc_size (find_first_of h s a)];
+    call b [enc_size (find_last_of h s a)];
+    call b [enc_size (find_first_not_of h s a)];
+    call b [enc_size (find_last_not_of h s a)];
+    call b (match compare3 h (arg 0) a s with Ok z -> [enc_sign z] | _ -> [-2])) huge3;
   finish b
 
 (* ---------------------------------------------------------------- block C *)
@@ -169,6 +193,9 @@ let block_alias buf o1 l1 o2 l2 verbose =
   List.iter (fun pos1 -> List.iter (fun n1 -> List.iter (fun pos2 -> List.iter (fun n2 ->
     call b (match compare5 h (arg pos1) (arg n1) s (arg pos2) (arg n2) with Ok z -> [enc_sign z] | _ -> [-2]))
     [1; -1]) [0; 1]) [1; -1]) [0; 1];
+  List.iter (fun g ->
+    call b [enc_size (find h s (arg g))];
+    call b [enc_size (rfind h s (arg g))]) huge3;
   finish b end
 
 (* ---------------------------------------------------------------- enumeration *)
